@@ -143,6 +143,9 @@ class Config(object):
         fl = ["-std=c++%d" % self.std]
         if self.compiler == "gcc":
             fl.append("-frounding-math")
+        if self.variant == "ubsan":
+            # undefined behaviour in the width-1 vectors / scalar functions traps (SIGILL) and is attributed to the operation by the signal guard
+            fl += ["-fsanitize=undefined", "-fsanitize-undefined-trap-on-error", "-fno-sanitize=alignment"]
         return fl + self.mflags() + self.defines()
 
     def has(self, m):
